@@ -89,9 +89,37 @@ package evaluator
 //@   modifies nothing
 
 //@ func randFunc(_ *scope, args []value) (r value, err error)
-//@   props C13 C02
+//@   props C13 C02 C08
 //@   requires numArg(args, 0)
 //@   let n = args[0].(*numVal).V
 //@   ensures[C13 rand-domain] !(n >= 1.0 && n <= 2147483647.0) ==> r == nil && wraps(err, ErrBadArguments)
 //@   ensures[C13 rand-range] err == nil ==> is(r, *numVal) && r.(*numVal).V >= 0.0 && r.(*numVal).V < n
+//@   ensures[C08 C13 seedable-source] err == nil ==> ncalls("(*Rand).Int31n") == 1 && callarg("(*Rand).Int31n", 1, 0) == RandSource && r.(*numVal).V == float(callres("(*Rand).Int31n", 1, 0))
 //@   modifies everything
+
+// ---- C08/C19: font properties are validated in insertion order ----
+
+//@ pure isStrProp(k string) bool = k == "family" || k == "style" || k == "baseline" || k == "align"
+//@ pure isNumProp(k string) bool = k == "size" || k == "weight" || k == "letterspacing"
+//@ pure okStrProp(k string, s string) bool = isStrProp(k) && (k == "align" ==> s == "left" || s == "center" || s == "right") && (k == "baseline" ==> s == "top" || s == "middle" || s == "bottom" || s == "alphabetic")
+//@ pure okNumProp(k string, n float64) bool = isNumProp(k) && (k == "size" || k == "weight" ==> !(n <= 0.0))
+//@ pure okProp(k string, v value) bool = is(v, *anyVal) && ((is(v.(*anyVal).V, *stringVal) && okStrProp(k, v.(*anyVal).V.(*stringVal).V)) || (is(v.(*anyVal).V, *numVal) && okNumProp(k, v.(*anyVal).V.(*numVal).V)))
+
+//@ func parseFontProps(arg *mapVal) (props map[string]any, err error)
+//@   props C08 C19 C02
+//@   requires arg != nil && forall(k, string, has(arg.Pairs, k) ==> is(arg.Pairs[k], *anyVal) && ref(arg.Pairs[k]) != 0 && ref(arg.Pairs[k].(*anyVal).V) != 0)
+//@   ensures[C19 valid-iff-all-ok] err == nil <==> forall(i, int, 0 <= i && i < len(*arg.Order) ==> okProp((*arg.Order)[i], arg.Pairs[(*arg.Order)[i]]))
+//@   ensures[C08 first-error-in-insertion-order] err != nil ==> exists(i, int, 0 <= i && i < len(*arg.Order) && !okProp((*arg.Order)[i], arg.Pairs[(*arg.Order)[i]]) && forall(j, int, 0 <= j && j < i ==> okProp((*arg.Order)[j], arg.Pairs[(*arg.Order)[j]])))
+//@   ensures[C02 bad-arguments] err != nil ==> props == nil && wraps(err, ErrBadArguments)
+//@   ensures[C19 all-props] err == nil ==> props != nil && fresh(props) && forall(i, int, 0 <= i && i < len(*arg.Order) ==> has(props, (*arg.Order)[i]))
+//@   modifies nothing
+//@   loop 1 modifies props[*]
+//@   loop 1 invariant -1 <= rangeindex && rangeindex < len(*arg.Order) && fresh(props)
+//@   loop 1 invariant forall(j, int, 0 <= j && j <= rangeindex ==> okProp((*arg.Order)[j], arg.Pairs[(*arg.Order)[j]]))
+//@   loop 1 invariant forall(j, int, 0 <= j && j <= rangeindex ==> has(props, (*arg.Order)[j]))
+//@   loop 1 invariant forall(k, string, has(propTypes, k) <==> isStrProp(k) || isNumProp(k)) && forall(k, string, isStrProp(k) ==> propTypes[k] == "string") && forall(k, string, isNumProp(k) ==> propTypes[k] == "num")
+
+//@ func rand1Func(_ *scope, _ []value) (r value, err error)
+//@   props C08 C13
+//@   ensures[C08 C13 seedable-source] err == nil && is(r, *numVal) && fresh(r) && ncalls("(*Rand).Float64") == 1 && callarg("(*Rand).Float64", 1, 0) == RandSource && r.(*numVal).V == callres("(*Rand).Float64", 1, 0)
+//@   modifies class rand.
